@@ -129,7 +129,9 @@ def containsSub (p : Str) : Str → Bool
 def pragmaOrdinary (s : PragmaState) (n : Nat) (l : Str) : PragmaState :=
   let s1 := if startsWith l "#include" = true ∧ s.reportEmptyLine = none
     then { s with reportEmptyLine := some (decide (0 < s.emptyLineNumber)) } else s
-  let s2 := if startsWith l "#" = true ∧ s1.reportEmptyLine = none then { s1 with reportEmptyLine := some false } else s1
+  -- (the `#pragma once` line itself must not switch the rule off: `and self.got_pragma_once is not None`)
+  let s2 := if startsWith l "#" = true ∧ s1.gotPragmaOnce ≠ none ∧ s1.reportEmptyLine = none
+    then { s1 with reportEmptyLine := some false } else s1
   let s3 := if s2.gotPragmaOnce = some true ∧ l.isEmpty = true then { s2 with emptyLineNumber := n } else s2
   if s3.gotPragmaOnce = none then { s3 with gotPragmaOnce := some (decide (l = "#pragma once".toList)) } else s3
 
